@@ -119,6 +119,15 @@ pub struct Outcome {
 }
 
 impl Outcome {
+    /// Recorded in the evidence and printed, never changes the exit code.
+    pub fn warn(&mut self, msg: impl Into<String>) {
+        let msg = msg.into();
+        eprintln!("NOTE: {}", msg);
+        let w = self.coverage.extra.entry("warnings".to_string()).or_insert_with(|| Value::Array(vec![]));
+        if let Value::Array(a) = w {
+            a.push(Value::String(msg));
+        }
+    }
     pub fn machinery(&mut self, msg: impl Into<String>) {
         self.machinery_errors.push(msg.into());
     }
